@@ -257,6 +257,31 @@ pub fn queries_outside<T: El>(rng: &mut Rng, x: &[T], spans: f64, n_random: usiz
     q
 }
 
+/// finite queries VERY far outside the range (extrapolation must continue the end polynomial for every finite query):
+/// beyond 2^53 units (where x + 1 == x), 1e30 and - unless the result grows cubically - 1e150; f32: 2^25, 1e9 / 1e15
+pub fn queries_far<T: El>(x: &[T], cubic: bool) -> Vec<T> {
+    if !T::IS_FLOAT {
+        return vec![];
+    }
+    let mags: Vec<f64> = match (T::NAME, cubic) {
+        ("f64", false) => vec![18014398509481984.0, 1.2e18, 1e30, 1e150],
+        ("f64", true) => vec![18014398509481984.0, 1.2e18, 1e30],
+        ("f32", false) => vec![33554432.0, 1e9, 1e15],
+        _ => vec![33554432.0],
+    };
+    let lo = x[0];
+    let hi = x[x.len() - 1];
+    let mut q = vec![];
+    for m in mags {
+        for v in [T::of_f64(m), T::of_f64(-m)] {
+            if v.as_f64().is_finite() && (v > hi || v < lo) {
+                q.push(v);
+            }
+        }
+    }
+    q
+}
+
 /// strictly increasing axis whose steps are within a global ratio `max_ratio` of each other;
 /// `grid_bits` > 0 puts every knot on the dyadic grid 2^-grid_bits (exactly representable)
 pub fn axis_mesh(rng: &mut Rng, n: usize, max_ratio: f64, grid_bits: u32) -> Vec<f64> {
